@@ -97,6 +97,8 @@ Checks(e) == <<
   <<"BinnedMIDef|Surrogates.test_mutual_information(2)", TestMIDef(e, "tmi2", 2)>>,
   <<"BinnedMIDef|Surrogates.test_mutual_information(4)", TestMIDef(e, "tmi4", 4)>>,
   <<"CCDef|cross_correlation(all)", CCAllDef(e)>>, <<"CCDef|cross_correlation(max)", CCMaxDef(e)>>,
+  <<"Repeatable|cross_correlation(after symmetrize_by_absmax)",
+    e.obs.maxv2 = e.obs.maxv /\ e.obs.maxl2 = e.obs.maxl /\ e.obs.all2 = e.obs.all>>,
   <<"MaxIsAll|cross_correlation", MaxIsAll(e)>>, <<"SymDef|symmetrize_by_absmax", SymDef(e)>>,
   <<"Bounded|cross_correlation", Bounded(e)>>, <<"GaussMIDef|mutual_information(gauss)", GaussDef(e)>>,
   <<"ImplementationsAgree|CouplingAnalysisPurePython.cross_correlation", PureAgrees(e)>>,
@@ -105,7 +107,7 @@ Checks(e) == <<
   <<"AffineInv|cross_correlation", AffineInv(e)>>, <<"ShiftInv|cross_correlation(offset 2^20)", ShiftInv(e)>>, <<"PermConsistent|cross_correlation", PermConsistent(e)>> >>
 Constant(e) == \E j \in 1..N : Var(Col(e, j)) = 0
 Tags(e) == "T" \o ToString(e.T) \o ",tau" \o ToString(e.taumax) \o (IF Constant(e) THEN ",constant_series" ELSE "")
-           \o (IF e.taumax > 0 THEN ",lagged" ELSE "")
+           \o (IF e.taumax > 0 THEN ",lagged" ELSE "") \o (IF e.hist = 1 THEN ",history" ELSE "")
 \* the Gaussian estimator is undefined (singular covariance) when a window is constant or two
 \* windows are perfectly correlated
 GaussUndefined(e) == \E a \in 1..N : \E b \in 1..N : \E L \in 0..e.taumax :
